@@ -173,6 +173,26 @@ def run(ctx):
                     ctx.fail({"clause": "probe-write", "class": cls, "child": "<all-list-children>", "what": "to_etree failed for %s: %r" % (label, ex)})
             ctx.nontrivial.add(label)
         nprobe += 1
+    # the same probes in a fresh interpreter in which the abstract base classes (TrnRq, TrnRs, the sync lists, ElementList ...)
+    # were used BEFORE any concrete class: a declared child can be built whatever was inspected earlier
+    import json as _json
+    import subprocess
+    import sys as _sys
+    import os as _os
+    from core import REPO
+    firsts = [e for e in evs if "probe" in e]
+    jobs = [{"id": "hb-" + e["id"], "doc": e["doc"], "route": "etree", "label": e["label"] + " (after the base classes were used)", "expect": "accept",
+             "extra": {"probe": e["probe"]}} for e in firsts]
+    jf, of = _os.path.join(ctx.work, "bases-first.jobs.json"), _os.path.join(ctx.work, "bases-first.out.json")
+    _json.dump(jobs, open(jf, "w"))
+    pr = subprocess.run([_sys.executable, _os.path.join(_os.path.dirname(__file__), "doc_worker.py"), REPO, _os.path.join(ctx.work, "schema.json"),
+                         jf, of, "bases"], capture_output=True, text=True, timeout=1800,
+                        env=dict(_os.environ, PYTHONHASHSEED="0", PYTHONDONTWRITEBYTECODE="1"))
+    if pr.returncode != 0:
+        raise MachineryError("doc_worker failed: " + pr.stderr[-1500:])
+    hb = _json.load(open(of))
+    evs += hb
+    ctx.extra["probes_repeated_after_base_classes_were_used"] = len(hb)
     ctx.extra["children_probed"] = nprobe
     ctx.exhaustive = True
     ctx.evaluations = len(evs)
